@@ -1,6 +1,6 @@
 """C13 -- Copeland ranks by pairwise victories and reports consistent features."""
 from vf import gen, ref
-from vf.core import exc_desc
+from vf.core import call, exc_desc
 from vf.lazy import ck, libx, common
 from vf.monitors import algos, large
 
@@ -34,7 +34,7 @@ def gen_case(rng, ctx):
         case["dcls"] = "xlarge"
         return case
     big = rng.random() < 0.1
-    cls, ds = gen.dataset(rng, classes="D1 D2 D3 D3 D4 D5 D6 D7 D7 D9 D21", nmax=15 if big else 8, mmax=7)
+    cls, ds = gen.dataset(rng, classes="D1 D2 D3 D3 D4 D5 D6 D7 D7 D9 D21 D14", nmax=15 if big else 8, mmax=7)
     ds = libx.normalise_raw(ds)
     scls, sch = gen.scheme(rng, "S1 S2 S3 S3 S4 S6 S6 S14 S14 S13")
     return {"ds": ds, "scheme": sch, "dcls": cls, "scls": scls}
@@ -92,9 +92,21 @@ def check_case(case, ctx):
     are aggregated by the same CopelandMethod object (algos.run_config keeps one per process)"""
     if case.get("dcls") == "xlarge":
         return check_xlarge(case, ctx)
-    judge(case, ctx, case["ds"], successor=False)
     ds = case["ds"]
+    shared = ck.Dataset([libx.mk_ranking(r) for r in ds])
+    judge(case, ctx, ds, successor=False, dataset=shared)
     elems = ref.universe(ds)
+    # history: the Dataset object that the shared CopelandMethod object has just aggregated is mutated in place (or a
+    # dataset derived from it is) and aggregated again: judged against the rankings it holds now
+    if len(elems) >= 2:
+        import random
+        r2 = random.Random(gen.digest(ds))
+        kind, ok = algos.mutate_in_place(shared, ds, r2)
+        st_now, now = call(libx.raw_dataset, shared)
+        if ok and st_now == "ok" and ref.universe(now):
+            ctx.count("runs_after_in_place_mutation")
+            ctx.count("history:" + kind)
+            judge(case, ctx, now, successor=False, dataset=shared, after=kind)
     if len(elems) >= 2:
         ren = dict(zip(elems, elems[1:] + elems[:1]))
         ds2 = [[[ren[e] for e in b] for b in reversed(r)] for r in ds]
@@ -103,11 +115,12 @@ def check_case(case, ctx):
             judge({**case, "ds": ds2, "successor_of": ds}, ctx, ds2, successor=True)
 
 
-def judge(case, ctx, ds, successor):
+def judge(case, ctx, ds, successor, dataset=None, after=None):
     sch = case["scheme"]
     common.set_case(ctx, case)
-    rankings = [libx.mk_ranking(r) for r in ds]
-    dataset = ck.Dataset(rankings)
+    if dataset is None:
+        rankings = [libx.mk_ranking(r) for r in ds]
+        dataset = ck.Dataset(rankings)
     scheme = libx.mk_scheme(sch)
     elems = ref.universe(ds)
     n = len(elems)
@@ -115,6 +128,9 @@ def judge(case, ctx, ds, successor):
     sub = {"ds": ds, "scheme": sch}
     if successor:
         sub["successor_of"] = case["successor_of"]
+    if after:
+        sub["after"] = after
+        sub["original_ds"] = case["ds"]
     st, cons, _ = algos.run_config("Copeland", dataset, scheme, True, 0)
     if st != "ok":
         ctx.violation(f"C13/raises-{type(cons).__name__}", "Copeland raised " + exc_desc(cons), sub)
@@ -168,6 +184,8 @@ def reach(counters, tier, info):
     for name, key, need in [("consensuses judged", "accepted", 2000 * k), ("cases with at least one equality", "with_equality", 500 * k),
                             ("cases with a pair never ranked together", "unranked_driven", 300 * k),
                             ("same-shape successor datasets aggregated by the same object", "same_shape_successors", 1500 * k),
+                            ("Dataset objects aggregated again after an in-place mutation", "runs_after_in_place_mutation", 1500 * k),
+                            ("... where the step is remove_empty_rankings", "history:remove_empty", 60 * k),
                             ("datasets of 63-1025 elements / 40-257 rankings judged (vectorised reference)", "xlarge_judged",
                              30 if tier == "quick" else 100),
                             ("distinct sizes among gen.THRESHOLD_SIZES met", "xlarge_sizes", len(gen.THRESHOLD_SIZES))]:
